@@ -116,6 +116,17 @@ def run : Registry → List Seg → P (Registry × List (List Seg))
       | .panic s => .panic s
       | .ok (r'', ds) => .ok (r'', d ++ ds)
 
+/-! ## Address.String -/
+
+/-- `Address.String`: "+" is prepended to an international ISDN number that lacks it; `p.No[0]`
+sits behind the guard `len(p.No) > 0` -/
+def addressString (a : Addr) : P Bytes :=
+  if a.ton = 1 && a.npi = 1 && a.no.length > 0 then
+    match idx "address.go p.No[0]" a.no 0 with
+    | .ok c => if c != 43 then .ok (43 :: a.no) else .ok a.no
+    | .panic s => .panic s
+  else .ok a.no
+
 /-! ## MessageState.String -/
 
 /-- `messageStateMap[m]` behind the guard `int(m) >= len(messageStateMap)` -/
